@@ -378,9 +378,10 @@ def _check_pair(case, ctx):
         lo, hi = (A.x0, A.x1) if axis == "x" else (A.y0, A.y1)
         side, other = (A.w, A.h) if axis == "x" else (A.h, A.w)
         fn = a.x_cuttable if axis == "x" else a.y_cuttable
-        for c in cuts:
+        for n_c, c in enumerate(cuts):
             C = F(c)
-            ok, res = ctx.call(fn, c, 0.01)
+            ratio = 0.01 if n_c % 3 else [0.001, 0.05, 0.2, 0.0, 0.01][(n_c // 3 + len(cuts)) % 5]     # the 'stated fraction' is a parameter
+            ok, res = ctx.call(fn, c, ratio)
             if not ok:
                 return viol("raised", f"{axis}_cuttable({c!r}) raised {res!r}")
             smallest = min(C - lo, hi - C)
@@ -402,8 +403,8 @@ def _check_pair(case, ctx):
                               [XR(A.x0, A.x1, A.y0, C), XR(A.x0, A.x1, C, A.y1)]
                         judge_split(f"cut at {axis}={c!r}", list(sp), exp)
             else:
-                need = F(1, 100) * max(side, other)
-                if smallest >= need * (1 + F(1, 10 ** 9)) + gz:
+                need = F(ratio) * max(side, other)
+                if smallest > gz and smallest >= need * (1 + F(1, 10 ** 9)) + gz:
                     ctx.count("cuttable_false_judged")
                     viol("cuttable_refused", f"{axis}_cuttable({c!r})=False but both pieces ({float(smallest)!r}) are >= 1% of either side ({float(need)!r})")
                 elif smallest <= gz:
